@@ -124,6 +124,7 @@ type Exec struct {
 	paths      int
 	curProps   []string
 	loadSeen   map[string]bool
+	pureFV     map[*Term]bool // function values known (by a resultpure contract) to be side-effect free
 	curClause        *Clause
 	nameCount        map[string]int
 	poolRefs         []*Term
